@@ -1,10 +1,10 @@
 CONSTANTS
-  W = 3
+  W = 2
   Limit = 1
-  L = 2
-  Uds = {2}
+  L = 1
+  Uds = {}
   MaxConns = 4
-  MaxFaults = 2
+  MaxFaults = 0
   MaxCmds = 0
   MaxErrs = 0
   MaxBare = 0
@@ -21,9 +21,9 @@ CONSTANTS
   WakeSkipsAcceptAll = FALSE
   PauseKeepsRegistered = FALSE
   RejoinPausedNoAvail = FALSE
-  ResetSeparate = FALSE
+  ResetSeparate = TRUE
 SPECIFICATION Spec
 VIEW View
-INVARIANTS TypeOK C01_Conservation C01_ServedOnce C01_NoSilentDrop C02_Bound C02_NoForcedSend C03_NoLostWake C04_RoundRobin C04_BitsTrueWhenCalm C05_ListenerLive C05_UdsReachable C05_ConnErrNoDelay C05_TimerHasTimeout C08_NoPanic C08_NoSpin C08_NoGhostBit C08_NoDupHandles C08_FaultReportedOnce
+INVARIANTS C03_NoLostWake C04_BitsTrueWhenCalm
 PROPERTIES Steps
 CHECK_DEADLOCK FALSE
